@@ -286,7 +286,9 @@ class Splicer:
             m = re.match(r'//@(\w+)\s+(.*)$', s)
             kind, rest = m.group(1), m.group(2)
             if kind == 'type':
-                loc, name = [p.strip() for p in rest.split('|')]
+                tparts = [p.strip() for p in rest.split('|')]
+                loc, name = tparts[0], tparts[1]
+                pubfields = len(tparts) > 2 and tparts[2] == 'pubfields'
                 crate, mod = loc.split()
                 mod = '' if mod == '-' else mod
                 it = [x for x in self.src(crate).module(mod) if x.kind in ('struct', 'enum') and x.name == name]
@@ -298,7 +300,41 @@ class Splicer:
                 self.log.types.append('%s::%s::%s' % (crate, mod, name))
                 if ders:
                     out.append('#[derive(%s)]' % ', '.join(ders))
-                out.append(it.text if it.text.rstrip().endswith((';', '}')) else it.text + ';')
+                ttext = it.text if it.text.rstrip().endswith((';', '}')) else it.text + ';'
+                if pubfields:
+                    # R8: private tuple-struct fields are made `pub` in the copy (visibility has no run-time meaning; Verus treats a
+                    # type with private fields as opaque in public specifications)
+                    close = ttext.rstrip().rstrip(';').rstrip()
+                    if close.endswith(')'):
+                        depth = 0
+                        openp = None
+                        for k in range(len(close) - 1, -1, -1):
+                            if close[k] == ')':
+                                depth += 1
+                            elif close[k] == '(':
+                                depth -= 1
+                                if depth == 0:
+                                    openp = k
+                                    break
+                        fields = []
+                        cur = ''
+                        d2 = 0
+                        for ch in close[openp + 1:-1]:
+                            if ch in '<([':
+                                d2 += 1
+                            elif ch in '>)]':
+                                d2 -= 1
+                            if ch == ',' and d2 == 0:
+                                fields.append(cur)
+                                cur = ''
+                            else:
+                                cur += ch
+                        if cur.strip():
+                            fields.append(cur)
+                        fields = [f if f.strip().startswith('pub') else ' pub ' + f.strip() for f in fields]
+                        ttext = close[:openp + 1] + ','.join(fields) + ');'
+                        self.log.rw('R8', '%s::%s::%s' % (crate, mod, name), 'private fields made pub in the verified copy')
+                out.append(ttext)
                 i += 1
                 continue
             if kind == 'alias':
